@@ -70,6 +70,11 @@ theorem minvW_foldl (k : Nat) (l : List Nat) : ∀ {m : MSt}, MInvW m → MInvW 
   | cons a l ih => exact fun h => ih (minvW_callCancel h k a)
 
 
+theorem minvW_foldl2 (l : List (Nat × Nat)) : ∀ {m : MSt}, MInvW m → MInvW (l.foldl (fun mm ki => callCancel mm ki.1 ki.2) m) := by
+  induction l with
+  | nil => exact fun h => h
+  | cons a l ih => exact fun h => ih (minvW_callCancel h a.1 a.2)
+
 theorem minvW_cancelIfSafe' {m} (hw : m.workersCanc = true → ∀ k j, (m.sets k).ctx j = true) : MInvW (cancelIfSafe m) := by
   unfold cancelIfSafe
   split
@@ -146,7 +151,7 @@ theorem minvW_mstep {cs m e m'} (h : MInvW m) (hs : mstep cs m e = some m') : MI
     simp only [mstep] at hs
     split at hs
     · split at hs
-      · cases hs; exact ⟨h.safe, h.workers⟩
+      · cases hs; exact minvW_foldl2 _ ⟨h.safe, h.workers⟩
       · cases hs
         have := minvW_cancelIfSafe' (m := { m with expectMore := false }) h.workers
         exact ⟨this.safe, this.workers⟩
@@ -246,7 +251,11 @@ theorem retExp_mstep {cs m e m'} (h : RetExp m) (hs : mstep cs m e = some m') : 
     simp only [mstep] at hs
     split at hs
     · split at hs
-      · cases hs; intro rs hr; cases hr
+      · rename_i e0 _
+        cases hs
+        intro rs hr
+        rw [(foldl2_callCancel_frame m.results { m with ret := some (.error e0), mcleaned := m.results }).2.2.2.2.1] at hr
+        cases hr
       · cases hs
         intro rs _
         exact (cancelIfSafe_mfields { m with expectMore := false }).2.2.2.2.1
